@@ -162,6 +162,21 @@ CHECKS = {
             {"name": "c11-lib", "bin": "server", "build": "inpkg:pkg/server", "run": "^TestC11Lib$", "quick": 20000, "thorough": 1000000},
         ],
     },
+    "C18": {
+        "level": "exploration",
+        "manifest": {
+            "technique": "round-trip property-based testing (rapid) on generated programs and the repository's example files (token-sequence and position-stripped AST comparison), plus idempotence of fmt over generated byte strings",
+            "level_text": "fmt(fmt(s)) == fmt(s) for byte strings assembled from BOMs, CR, CRLF, unicode spaces, brackets, quotes, comment markers and raw bytes. For sources the parser accepts (generated programs in many layouts - comments in both styles, CRLF, lone CR, BOM, blank lines, multi-line literals whose continuation lines start with - or !, strings holding sigils, brackets, comment markers and every escape - and every .glyph file under examples/ and tests/): the token stream of fmt(s) equals that of s up to positions and runs of NEWLINE, fmt(s) is accepted and parses to the same tree; parse(compact(expand(s))), parseExpanded(expand(s)) and parse(s) are equal as position-stripped syntax trees.",
+            "level_note": "Two root causes make expand/compact lose programs on the pinned tree and are recorded as findings: names spelled like the 13 words of the expanded syntax (incl. the `@ route` form) and `--flag` command parameters; generated programs avoid them while listed and example files containing them are skipped and counted. Syntax trees are compared by reflection with ast.Pos ignored.",
+        },
+        "rule": ("rapid-generated byte strings (idempotence) and programs / example files (layout-only and round trip); non-trivial: idempotence - the first pass changes the input; programs - the source has comments, multi-line literals, a BOM, keyword-like names, or strings with sigils / comment markers / escapes; distinct = hash of the source"),
+        "assumptions": ["the expanded text is parsed with parser.NewExpandedLexer + parser.NewParser, as the CLI does for .glyphx files"],
+        "units": [
+            {"name": "c18-idem", "bin": "c18", "build": "harness:c18", "run": "^TestC18Idem$", "quick": 60000, "thorough": 3000000},
+            {"name": "c18-fmt", "bin": "c18", "build": "harness:c18", "run": "^TestC18Fmt$", "quick": 20000, "thorough": 1000000},
+            {"name": "c18-expand", "bin": "c18", "build": "harness:c18", "run": "^TestC18Expand$", "quick": 20000, "thorough": 1000000},
+        ],
+    },
     "C20": {
         "level": "exploration",
         "manifest": {
